@@ -3,6 +3,7 @@ package main
 import (
 	"fmt"
 	"go/types"
+	"sort"
 	"strings"
 )
 
@@ -172,7 +173,13 @@ func (st *State) havocAll() {
 		}
 	}
 	st.heap = nh
-	st.last = map[string]Val{}
+	nl := map[string]Val{}
+	for k, v := range st.last {
+		if strings.HasPrefix(k, "alias@") || strings.HasPrefix(k, "slice@") {
+			nl[k] = v
+		}
+	}
+	st.last = nl
 }
 
 func (st *State) havocClass(class string) {
@@ -237,7 +244,7 @@ func (st *State) freshVal(hint string, t types.Type) Val {
 		}
 		return v
 	case *types.Array:
-		panic(rejectErr("array value of type " + t.String()))
+		return Val{T: t, BI: "array"}
 	}
 	srt := sortOf(t)
 	if srt == "" {
@@ -257,7 +264,7 @@ func (st *State) zeroVal(t types.Type) Val {
 		}
 		return v
 	case *types.Array:
-		panic(rejectErr("array zero value of type " + t.String()))
+		return Val{T: t, BI: "array"} // arrays embedded in structs are left unconstrained (over-approximation)
 	}
 	switch sortOf(t) {
 	case "Bool":
@@ -283,6 +290,26 @@ func (st *State) newRef(hint string) string {
 	st.assume("(> " + r + " " + st.alloc + ")")
 	st.alloc = st.define("alloc", "Int", r)
 	st.freshRef[r] = true
+	// ghost state of a fresh object starts at its default value
+	for _, c := range st.x.w.classOrder {
+		if !strings.HasPrefix(c, "ghost:") {
+			continue
+		}
+		var d string
+		switch elemSortOfArray(st.x.w.classes[c]) {
+		case "Bool":
+			d = "false"
+		case "Int":
+			d = "0"
+		case "String":
+			d = `""`
+		case "Iface":
+			d = "(mk-iface 0 0)"
+		default:
+			continue
+		}
+		st.assume("(= (select " + st.hget(c) + " " + r + ") " + d + ")")
+	}
 	return r
 }
 
@@ -336,6 +363,7 @@ func (st *State) bindSubObjects(a *Addr) {
 			sub := st.fieldAddr(a, i)
 			r := st.newRef("sub")
 			st.assume(sEq(sub.Ref, r))
+			st.last["alias@"+sub.Ref] = Val{S: r}
 			if _, ok := ft.Underlying().(*types.Struct); ok {
 				st.bindSubObjects(&Addr{Kind: "obj", Ref: r, Elem: ft})
 			}
@@ -392,7 +420,13 @@ func (st *State) fieldAddr(base *Addr, i int) *Addr {
 		if _, ok := ft.Underlying().(*types.Array); ok {
 			kind = "arr"
 		}
-		return &Addr{Kind: kind, Ref: "(" + fn + " " + base.Ref + ")", Elem: ft}
+		ref := "(" + fn + " " + base.Ref + ")"
+		if al, ok := st.last["alias@"+ref]; ok {
+			ref = al.S // embedded object of an object allocated on this path: its own fresh identity
+		} else {
+			st.derivedNotFresh(ref, base.Ref)
+		}
+		return &Addr{Kind: kind, Ref: ref, Elem: ft}
 	}
 	srt := sortOf(ft)
 	if srt == "" {
@@ -410,7 +444,22 @@ func (st *State) elemAddrOf(arr, idx string, et types.Type) *Addr {
 	case *types.Struct:
 		fn := quoteSym("elemref:" + types.TypeString(et, nil))
 		st.x.w.declUF(fn, "(declare-fun "+fn+" (Int Int) Int)")
-		return &Addr{Kind: "obj", Ref: "(" + fn + " " + arr + " " + idx + ")", Elem: et}
+		ref := "(" + fn + " " + arr + " " + idx + ")"
+		if al, ok := st.last["alias@"+ref]; ok {
+			ref = al.S
+		} else if st.freshRef[arr] && !strings.Contains(ref, "q!") {
+			// element of an array allocated on this path: give it its own fresh identity
+			r := st.newRef("elem")
+			st.assume(sEq(ref, r))
+			st.last["alias@"+ref] = Val{S: r}
+			if _, isS := et.Underlying().(*types.Struct); isS {
+				st.bindSubObjects(&Addr{Kind: "obj", Ref: r, Elem: et})
+			}
+			ref = r
+		} else {
+			st.derivedNotFresh(ref, arr)
+		}
+		return &Addr{Kind: "obj", Ref: ref, Elem: et}
 	case *types.Array:
 		panic(rejectErr("array of arrays"))
 	}
@@ -482,7 +531,7 @@ func (st *State) loadFrom(h map[string]string, a *Addr, t types.Type) Val {
 		}
 		return v
 	case "arr":
-		panic(rejectErr("load of whole array"))
+		return Val{T: t, BI: "array"}
 	case "fld", "mem":
 		srt := sortOf(a.Elem)
 		v := Val{T: t, S: "(select " + get(a.Class) + " " + a.Ref + ")", Sort: srt}
@@ -500,6 +549,12 @@ func (st *State) loadFrom(h map[string]string, a *Addr, t types.Type) Val {
 func (st *State) load(a *Addr, t types.Type) Val {
 	if a.Kind == "fld" || a.Kind == "mem" {
 		if v, ok := st.last[a.Class+"@"+a.Ref]; ok {
+			v.T = t
+			return v
+		}
+	}
+	if a.Kind == "elem" {
+		if v, ok := st.last[a.Class+"@"+a.Ref+"@"+a.Idx]; ok {
 			v.T = t
 			return v
 		}
@@ -539,7 +594,36 @@ func (st *State) storeAt(a *Addr, v Val, t types.Type) {
 	case "elem":
 		h := st.hget(a.Class)
 		st.hset(a.Class, "(store "+h+" "+a.Ref+" (store (select "+h+" "+a.Ref+") "+a.Idx+" "+st.valTerm(v)+"))")
+		if v.S != "" {
+			st.last[a.Class+"@"+a.Ref+"@"+a.Idx] = v
+		}
+	case "arr":
+		if v.BI == "array" {
+			return // whole-array stores of unconstrained arrays: contents stay unconstrained
+		}
+		panic(rejectErr("store of array value"))
 	default:
 		panic(rejectErr("store to address kind " + a.Kind))
 	}
+}
+
+// derivedNotFresh: an embedded / element object of an object that existed before is itself not a fresh
+// allocation (it cannot alias anything allocated later on this path).
+func (st *State) derivedNotFresh(ref, base string) {
+	if st.freshRef[base] || strings.Contains(ref, "q!") {
+		return
+	}
+	key := "derived:" + ref
+	if st.known[key] {
+		return
+	}
+	st.known[key] = true
+	st.assume("(and (<= 0 " + ref + ") (<= " + ref + " " + st.alloc + "))")
+	// ... and differs from every object allocated earlier on this path
+	var ds []string
+	for r := range st.freshRef {
+		ds = append(ds, sNot(sEq(ref, r)))
+	}
+	sort.Strings(ds)
+	st.assume(sAnd(ds...))
 }
